@@ -1,10 +1,11 @@
 import SymmModel.Driver.Main
 import SymmModel.Driver.SymH
 import SymmModel.Driver.HamH
+import SymmModel.Driver.TruncH
 open Lean SymmModel.Driver
 
 /-- plug-in handlers of the self-contained property models are tried in order -/
-def handlers : List (String → Json → Option (D Json)) := [handleCore, handleSym, handleHam]
+def handlers : List (String → Json → Option (D Json)) := [handleCore, handleSym, handleHam, handleTrunc]
 
 def handleLine (line : String) : Json :=
   match Json.parse line with
